@@ -465,6 +465,9 @@ UNBOUNDED_CONTRACTS = [
              params={'self': T.obj('ak.color:CHText'),
                      'parts': T.one_of(T.tuple(), T.tuple(ANYTEXT()), T.tuple(T.str, ANYTEXT()), T.tuple(ANYTEXT(), CHUNK()),
                                        T.tuple(ANYTEXT(), ANYTEXT()), T.tuple(CHUNK(), T.str, ANYTEXT()),
+                                       # the shapes the chunk operations use (chunk + x, x + chunk, chunk.fixed_len, chunk.join)
+                                       T.tuple(CHUNK()), T.tuple(CHUNK(), T.str), T.tuple(CHUNK(), CHUNK()),
+                                       T.tuple(CHUNK(), ANYTEXT()), T.tuple(T.str, CHUNK()),
                                        *([T.tuple(ANYTEXT(), T.str, ANYTEXT(), CHUNK())]
                                          if _os.environ.get('VERIF_TIER') == 'thorough' else [])),
                      'p': T.int},
@@ -477,6 +480,15 @@ UNBOUNDED_CONTRACTS = [
              },
              result_spec=T.none, havoc=HAVOC_TEXT, symlist_models=COLOR_MODELS, raises={},
              modifies=['self.chunks', 'self.scrlen']),
+    Contract(M, 'CHText.__init__', name='CHText.__init__/one_chunk', prop=PROP, spec_globals=G, level='sup',
+             params={'self': T.obj('ak.color:CHText'), 'parts': T.tuple(CHUNK())},      # CHText(chunk): the chunk list itself
+             requires=[],
+             ensures={
+                 'shape': "len(self.chunks) == (1 if len(parts[0].text) > 0 else 0)",
+                 'the_chunk': "len(self.chunks) == 0 or same_fields(self.chunks[0], parts[0])",
+                 'len': "self.scrlen == len(parts[0].text)",
+             },
+             result_spec=T.none, havoc=HAVOC_TEXT, raises={}, modifies=['self.chunks', 'self.scrlen']),
     Contract(M, 'CHText.__init__', name='CHText.__init__/chunks/any_length', prop=PROP, spec_globals=G, level='top',
              params={'self': T.obj('ak.color:CHText'), 'parts': ANYCHUNKS(), 'p': T.int},      # CHText(*chunks)
              requires=[],
@@ -514,6 +526,7 @@ UNBOUNDED_CONTRACTS = [
              },
              symlist_models=COLOR_MODELS, raises={}, modifies=[]),
     Contract(M, 'CHText.join', name='CHText.join/any_length', prop=PROP, spec_globals=G, level='top',
+             result_spec=ANYTEXT(),
              params={'self': T.one_of(ANYTEXT()),
                      'iterable': T.one_of(T.list(), T.list(ANYTEXT()), T.list(T.str, ANYTEXT()), T.list(ANYTEXT(), CHUNK(), T.str),
                                           *([T.list(T.str, ANYTEXT(), CHUNK(), ANYTEXT())]
@@ -611,6 +624,7 @@ UNBOUNDED_CONTRACTS = [
              },
              symlist_models=COLOR_MODELS, raises={}, modifies=['self.chunks', 'self.scrlen']),
     Contract(M, 'CHText.__format__', name='CHText.__format__/any_length', prop=PROP, spec_globals=G, level='top',
+             result_spec=T.str,
              params={'self': T.one_of(ANYTEXT()),
                      'fill': T.one_of(T.const(''), T.str_len(1)),
                      'align': T.one_of(T.const(''), T.const('<'), T.const('>'), T.const('^')),
@@ -678,6 +692,117 @@ UNBOUNDED_CONTRACTS = [
              symlist_models=COLOR_MODELS,
              modifies=[]),
 ]
+
+# ---- the single-coloured chunk (what ColorFmt(...)(text) returns): its public operations --------------------
+# No container here, so nothing is bounded: every obligation is over all texts / colours / operands; operand texts
+# (CHText) have any number of chunks.  Concatenations and constructors go through the contracts of CHText above.
+_CH_OPERAND = T.one_of(T.str, CHUNK(), ANYTEXT())
+_CH_CAT = {
+    'wf': "wf_any(result)",
+    'text': "plain(result.chunks) == {text}",
+    'len': "result.scrlen == len({text})",
+    'colors': "not (0 <= p < result.scrlen) or color_at(result.chunks, p) == color_in_parts({parts}, p)",
+    'is_text': "isinstance(result, CHText_cls)",
+}
+
+
+def _ch_cat(text, parts):
+    return {k: v.format(text=text, parts=parts) for k, v in _CH_CAT.items()}
+
+
+CHUNK_CONTRACTS = [
+    Contract(M, '_CHTextChunk.clone', prop=PROP, spec_globals=G, level='sup',
+             params={'self': CHUNK(), 'new_text': T.str},
+             ensures={'same_colour_new_text': "result.c_prefix == self.c_prefix and result.c_suffix == self.c_suffix "
+                                              "and result.text == new_text and result is not self",
+                      'is_chunk': "isinstance(result, Chunk_cls)"},
+             raises={}, modifies=[]),
+    Contract(M, '_CHTextChunk.has_same_type', prop=PROP, spec_globals=G, level='sup',
+             params={'self': CHUNK(), 'other': T.one_of(CHUNK(), T.same_as('self'))},
+             ensures={'same_colour': "result == (self.c_prefix == other.c_prefix)"},
+             raises={}, modifies=[]),
+    Contract(M, '_CHTextChunk.add_chunks_same_type', prop=PROP, spec_globals=G, level='sup',
+             params={'self': CHUNK(), 'other': CHUNK()},
+             requires=["self.c_prefix == other.c_prefix"],
+             ensures={'merged': "result.c_prefix == self.c_prefix and result.c_suffix == self.c_suffix "
+                                "and result.text == self.text + other.text and result is not self and result is not other"},
+             raises={}, modifies=[]),
+    Contract(M, '_CHTextChunk.__str__', prop=PROP, spec_globals=G, level='top',
+             params={'self': CHUNK()},
+             ensures={'rendered': "result == self.c_prefix + self.text + self.c_suffix"}, raises={}, modifies=[]),
+    Contract(M, '_CHTextChunk.plain_text', prop=PROP, spec_globals=G, level='top',
+             params={'self': CHUNK()}, ensures={'text': "result == self.text"}, raises={}, modifies=[]),
+    Contract(M, '_CHTextChunk.__len__', prop=PROP, spec_globals=G, level='top',
+             params={'self': CHUNK()}, ensures={'visible_chars': "result == len(self.text)"}, raises={}, modifies=[]),
+    Contract(M, '_CHTextChunk.__eq__', name='_CHTextChunk.__eq__/str', prop=PROP, spec_globals=G, level='top',
+             params={'self': CHUNK(), 'other': T.str},
+             requires=["wfc(self)"],
+             ensures={'default_coloured_chunk_equals_str': "result == (self.c_prefix == '' and self.text == other)"},
+             raises={}, modifies=[]),
+    Contract(M, '_CHTextChunk.__getitem__', name='_CHTextChunk.__getitem__/index', prop=PROP, spec_globals=G, level='top',
+             params={'self': CHUNK(), 'index': T.int},
+             ensures={'char': "result.text == self.text[index]",
+                      'color': "result.c_prefix == self.c_prefix and result.c_suffix == self.c_suffix",
+                      'in_range': "-len(self.text) <= index < len(self.text)"},
+             raises={'index_error': ((IndexError,), "not (-len(self.text) <= index < len(self.text))")}, modifies=[]),
+    Contract(M, '_CHTextChunk.__getitem__', name='_CHTextChunk.__getitem__/slice', prop=PROP, spec_globals=G, level='top',
+             params={'self': CHUNK(), 'index': T.one_of(*[_slice_spec(a, b) for a in (False, True) for b in (False, True)])},
+             ensures={'text': "result.text == self.text[index.start:index.stop]",
+                      'color': "result.c_prefix == self.c_prefix and result.c_suffix == self.c_suffix"},
+             raises={}, modifies=[]),
+    Contract(M, '_CHTextChunk.__add__', prop=PROP, spec_globals=G, level='top', result_spec=ANYTEXT(),
+             params={'self': CHUNK(), 'other': _CH_OPERAND, 'p': T.int},
+             ensures=_ch_cat("self.text + text_of(other)", "(self, other)"),
+             symlist_models=COLOR_MODELS, raises={}, modifies=[]),
+    Contract(M, '_CHTextChunk.__iadd__', prop=PROP, spec_globals=G, level='top', result_spec=ANYTEXT(),
+             params={'self': CHUNK(), 'other': _CH_OPERAND, 'p': T.int},
+             ensures=_ch_cat("self.text + text_of(other)", "(self, other)"),
+             symlist_models=COLOR_MODELS, raises={}, modifies=[]),
+    Contract(M, '_CHTextChunk.__radd__', prop=PROP, spec_globals=G, level='top', result_spec=ANYTEXT(),
+             params={'self': CHUNK(), 'other': T.one_of(T.str, CHUNK()), 'p': T.int},
+             ensures=_ch_cat("text_of(other) + self.text", "(other, self)"),
+             symlist_models=COLOR_MODELS, raises={}, modifies=[]),
+    Contract(M, '_CHTextChunk.fixed_len', prop=PROP, spec_globals=G, level='top', result_spec=ANYTEXT(),
+             params={'self': CHUNK(), 'desired_len': T.int, 'p': T.int},
+             requires=["desired_len >= 0"],
+             ensures={
+                 'len': "result.scrlen == desired_len",
+                 'text': "plain(result.chunks) == (self.text[:desired_len] if desired_len <= len(self.text) "
+                         "else self.text + ' ' * (desired_len - len(self.text)))",
+                 'wf': "wf_any(result)",
+                 'colors': "not (0 <= p < desired_len) or color_at(result.chunks, p) == "
+                           "(self.c_prefix if p < len(self.text) else '')",
+                 'is_text': "isinstance(result, CHText_cls)",
+             },
+             symlist_models=COLOR_MODELS, raises={}, modifies=[]),
+    Contract(M, '_CHTextChunk.join', prop=PROP, spec_globals=G, level='top', result_spec=ANYTEXT(),
+             params={'self': CHUNK(),
+                     'iterable': T.one_of(T.list(), T.list(ANYTEXT()), T.list(T.str, ANYTEXT()), T.list(ANYTEXT(), CHUNK(), T.str)),
+                     'p': T.int},
+             ensures={
+                 'wf': "wf_any(result)",
+                 'text': "plain(result.chunks) == text_of_parts(interleave(self, iterable))",
+                 'colors': "not (0 <= p < result.scrlen) or color_at(result.chunks, p) == "
+                           "color_in_parts(interleave(self, iterable), p)",
+             },
+             symlist_models=COLOR_MODELS, raises={}, modifies=[]),
+    Contract(M, '_CHTextChunk.__format__', prop=PROP, spec_globals=G, level='top',
+             params={'self': CHUNK(),
+                     'fill': T.one_of(T.const(''), T.str_len(1)),
+                     'align': T.one_of(T.const(''), T.const('<'), T.const('>'), T.const('^')),
+                     'width': T.one_of(T.const(''), *[T.const(w) for w in _FORMAT_WIDTHS]),
+                     'kind': T.one_of(T.const(''), T.const('s')),
+                     'format_spec': _FORMAT_SPEC},
+             requires=["fill == '' or align != ''"],
+             # the statement fixes the visible text and the colour of the chunk's own characters; whether the FILL of a bare
+             # chunk is shown uncoloured (what the code does, via CHText) or in the chunk's colour is left open by it
+             # (seeded change C08-10, judged outside): both are accepted, anything else is not
+             ensures={'padding': "result == pad_like_str((self.c_prefix + self.text + self.c_suffix) if len(self.text) > 0 else '', "
+                                 "len(self.text), fill, align, width) or "
+                                 "result == self.c_prefix + pad_like_str(self.text, len(self.text), fill, align, width) + self.c_suffix"},
+             symlist_models=FOLD_MODELS, raises={}, modifies=[]),
+]
+UNBOUNDED_CONTRACTS += CHUNK_CONTRACTS
 
 CONTRACTS = UNBOUNDED_CONTRACTS + [
     Contract(M, 'CHText._get_chunk_pos', prop=PROP, spec_globals=G, level='sup',
@@ -878,10 +1003,13 @@ def total_runs(rs):
 
 
 CHText_cls = akc.CHText
+Chunk_cls = akc._CHTextChunk
 
 BOUNDED_SYMBOLIC = {'CHText.__format__/any_length': f"widths from {{none, {', '.join(map(str, _FORMAT_WIDTHS))}}}; any fill character, every alignment, text with any number of chunks",
                     'CHText.join/any_length': "at most 3 (thorough: 4) joined items (str / chunk / text); every text has any number of chunks",
                     'CHText.__init__/any_length': "at most 3 (thorough: 4) constructor arguments (str / chunk / text); every text has any number of chunks",
+                    '_CHTextChunk.__format__': f"widths from {{none, {', '.join(map(str, _FORMAT_WIDTHS))}}}; any fill character, every alignment, any chunk",
+                    '_CHTextChunk.join': "at most 3 joined items (str / chunk / text); every text has any number of chunks",
                     'CHText.join': 3, 'CHText._merge_chunks': _MAXM - 1, 'CHText.make': _MAXM - 1, 'CHText.__init__': 2, 'CHText._append_chunk': 3, 'CHText.__iadd__': 2, 'CHText.__add__': 2, 'CHText.__radd__': 2,
                     'CHText.__eq__/text': 2, 'CHText.__eq__/str': 3, 'CHText.fixed_len': 2, 'CHText._get_chunk_pos': 3, 'CHText.__getitem__/index': 3, 'CHText.__getitem__/slice': 3}
 _IADD_ANY = ['CHText.__iadd__/chunk/any_length', 'CHText.__iadd__/str/any_length', 'CHText.__iadd__/text/any_length']
@@ -902,7 +1030,13 @@ USES = {'CHText.__getitem__/index/any_length': ['CHText._get_chunk_pos/any_lengt
         'CHText.__iadd__/self/any_length': ['CHText._append_chunk/any_length'],
         'CHText.__init__/any_length': _IADD_ANY, 'CHText.__init__/chunks/any_length': _IADD_ANY, 'CHText.__add__/any_length': _IADD_ANY + ['CHText.__init__/any_length'],
         'CHText.__radd__/any_length': ['CHText.__init__/any_length'],
-        'CHText.join/any_length': _IADD_ANY + ['CHText.__init__/any_length']}
+        'CHText.join/any_length': _IADD_ANY + ['CHText.__init__/any_length'],
+        '_CHTextChunk.__add__': _IADD_ANY + ['CHText.__init__/any_length'],
+        '_CHTextChunk.__iadd__': _IADD_ANY + ['CHText.__init__/any_length'],
+        '_CHTextChunk.__radd__': _IADD_ANY + ['CHText.__init__/any_length'],
+        '_CHTextChunk.fixed_len': _IADD_ANY + ['CHText.__init__/any_length'],
+        '_CHTextChunk.__format__': _IADD_ANY + ['CHText.__init__/any_length', 'CHText.__init__/one_chunk', 'CHText.__format__/any_length'],
+        '_CHTextChunk.join': _IADD_ANY + ['CHText.__init__/any_length', 'CHText.__init__/one_chunk', 'CHText.join/any_length']}
 ASSUMED_LIBRARY = []
 def _wf_chunks_sample(rng, first_id=1):
     cols = ['', '\x1b[31m', '\x1b[1;32m', '\x1b[38;5;12m']
@@ -940,8 +1074,23 @@ for _c in CONTRACTS:
     if _c.name == 'lemma_pointwise/any_length':
         _c.sampler = _pointwise_sample
 
-NATIVE_SAMPLING = {'select': 'any_length', 'n': 150}
+NATIVE_SAMPLING = {'select': ('any_length', '_CHTextChunk.', 'CHText.make', 'CHText._merge_chunks', 'one_chunk'), 'n': 150}
 CANARIES = [
+    {'name': 'chunk_radd_wrong_order', 'module': M, 'function': '_CHTextChunk.__radd__',
+     'old': 'return CHText(other, self)', 'new': 'return CHText(self, other)',
+     'expect': 'C08._CHTextChunk.__radd__.text'},
+    {'name': 'chunk_fixed_len_one_space_short', 'module': M, 'function': '_CHTextChunk.fixed_len',
+     'old': 'return CHText(self, " "*len_diff)', 'new': 'return CHText(self, " "*(len_diff - 1))',
+     'expect': 'C08._CHTextChunk.fixed_len.len'},
+    {'name': 'chunk_index_loses_colour', 'module': M, 'function': '_CHTextChunk.__getitem__', 'verify': '_CHTextChunk.__getitem__/index',
+     'old': 'return self.clone(self.text[index])', 'new': 'return type(self)("", self.text[index], "")',
+     'expect': 'C08._CHTextChunk.__getitem__/index.color'},
+    {'name': 'chunk_eq_str_ignores_colour', 'module': M, 'function': '_CHTextChunk.__eq__', 'verify': '_CHTextChunk.__eq__/str',
+     'old': 'return self.is_plain() and self.text == other', 'new': 'return self.text == other',
+     'expect': 'C08._CHTextChunk.__eq__/str.default_coloured_chunk_equals_str'},
+    {'name': 'chunk_join_uses_plain_separator', 'module': M, 'function': '_CHTextChunk.join',
+     'old': 'sep = CHText(self)', 'new': 'sep = CHText(self.text)',
+     'unproved_is_enough': True, 'expect': 'C08._CHTextChunk.join.colors'},
     {'name': 'merge_loses_last_run', 'module': M, 'function': 'CHText._merge_chunks',
      'old': '        result.append(cur_chunk)\n        return result', 'new': '        return result',
      'expect': 'C08.CHText._merge_chunks.view'},
